@@ -14,7 +14,8 @@ Definition qinit := init oq.
 Inductive obs_out :=
 | XNone | XRejected
 | XVal (v : Q) | XErr (e : Q) | XDeriv (d : Q)
-| XGen (g : nat).                   (* a Monte Carlo read / peek: generation of the stored samples *)
+| XGen (g : nat)                    (* a Monte Carlo read / peek: generation of the stored samples *)
+| XAny.                             (* a read whose number is not finite (inf / nan at a singular point): not compared *)
 
 Definition out_agrees (vtol : Q) (m : out oq) (o : obs_out) : bool :=
   match m, o with
@@ -28,6 +29,7 @@ Definition out_agrees (vtol : Q) (m : out oq) (o : obs_out) : bool :=
       end
   | ODeriv _ x, XDeriv d => agree x d vtol
   | OMcValue _ g, XGen g' | OMcError _ g, XGen g' | OGen _ g, XGen g' => Nat.eqb g g'
+  | OVal _ _, XAny | OVar _ _, XAny | ODeriv _ _, XAny => true
   | _, _ => false
   end.
 
